@@ -480,12 +480,12 @@ type enumC05 struct {
 
 func TestC05Enum(t *testing.T) {
 	vcore.RunEnum(t, vcore.Config{Property: "C05", Inflight: true,
-		Rule: "fault enumeration: instance A publishes key k (only copy), a peer B publishes k2; A is crashed at EVERY yield point (14) while it uploads a second change, restarted with the LMDB {kept, emptied}, with its own newest snapshot {downloadable, failing to load twice, followed by an undecodable newer blob}; the application writes k' right after the restart; both loops run on; invariants as in TestC05Bucket after every bucket mutation; non-trivial = emptied restart"},
+		Rule: "fault enumeration: instance A publishes key k (only copy), a peer B publishes k2; A is crashed at EVERY yield point (14) while it uploads a second change, restarted with the LMDB {kept, emptied}, with its own newest snapshot {downloadable, failing to load twice, followed by an undecodable newer blob, failing to load eight times while every other listing fails}; the application writes k' right after the restart; both loops run on; invariants as in TestC05Bucket after every bucket mutation; non-trivial = emptied restart"},
 		func(yield func(enumC05) bool) {
 			for _, native := range []bool{true, false} {
 				for _, p := range loopYieldPoints {
 					for _, keep := range []bool{true, false} {
-						for _, own := range []string{"ok", "fail2", "corrupt-newest"} {
+						for _, own := range []string{"ok", "fail2", "corrupt-newest", "slow+listfail"} {
 							if !yield(enumC05{Native: native, Point: p, Keep: keep, Own: own}) {
 								return
 							}
@@ -512,6 +512,15 @@ func TestC05Enum(t *testing.T) {
 				c.Ops = append(c.Ops, C05Op{Kind: "fault", Inst: 0, FKind: "load", Faults: []string{fault.Fail, fault.Fail}})
 			case "corrupt-newest":
 				c.Ops = append(c.Ops, C05Op{Kind: "corrupt-own", Inst: 0})
+			case "slow+listfail":
+				// the own snapshot needs many attempts, and meanwhile every other listing fails (whichever of them
+				// is the start-up one: that one is retried): a failed listing says nothing about what exists
+				var lf, ldf []string
+				for i := 0; i < 8; i++ {
+					ldf = append(ldf, fault.Fail)
+					lf = append(lf, []string{fault.OK, fault.Fail}[i%2])
+				}
+				c.Ops = append(c.Ops, C05Op{Kind: "fault", Inst: 0, FKind: "load", Faults: ldf}, C05Op{Kind: "fault", Inst: 0, FKind: "list", Faults: lf})
 			}
 			c.Ops = append(c.Ops,
 				C05Op{Kind: "crash", Inst: 0, Keep: e.Keep},
